@@ -9,6 +9,7 @@ B_NOTE = ('Trusted base: the stub contracts of the stdlib primitives (engine_b/s
 B_TECH = ('thread-modular symbolic execution of the real code on symbolic primitives + SMT inductive-invariant check '
           '(z3: initiation / consecution / safety / progress over a learned state set), counterexamples replayed on real primitives')
 CHECKS = {
+    'C17': ('B', 'model_checking', 'Loss, duplication, an unfinished consumer or a leaked end marker need particular interleavings of the token-queue operations of several consumers; the solver covers all of them for the listed numbers of suppliers, consumers, items and rounds (one listed known finding excluded by its signature).', '3 C17'),
     'C10': ('B', 'model_checking', 'Every TeeX field, head.value and the source position are symbolic cells, so the solver covers preemption between any two lines of the fork step; wedges (deadlock, spin trap on a leaked lock), lost or reordered elements and wrong endings are shown unreachable for the listed sizes and every source failure position.', '3 C10'),
     'C02': ('B', 'model_checking', 'For the listed caller/stream configurations the solver proves that every caller of the real Server.call / stream receives the result of its own request (or its own failure) under every schedule of callers, servlet stub, gather and notify threads: lost or crossed responses need a result to arrive inside a window between two statements.', '3 C02'),
     'C06': ('B', 'model_checking', 'len(ledger) <= capacity is a state invariant asserted on every state of the inductive invariant of the real _enqueue/_gather_output code with 2-3 racing callers; slot return is checked at quiescence.', '3 C06'),
